@@ -22,7 +22,7 @@ CHECKS = {
                 'never descends under a binder without the capture check of that binder sort; a metavariable is replaced only after its '
                 'constraint lists were checked with the judgement of the same name; axiom constants equal the schemas; judgement arms are '
                 'sound. Validity in finite models is not evaluated - that quantifier is out of reach of a static argument; what is decided '
-                'is every code-level way the induction can fail.',
+                'is every code-level way the induction can fail. (S3b) the structural arms of apply_esubst / apply_ssubst (leaves, connectives, binders: shadowing and capture) are the textbook substitution; a refusal where the table substitutes is accepted (rejecting more is sound), the deferral arms are left to C05 / C11.',
         'note': 'Trusted: soundness of the matching-logic proof system and the induction; spec tables sa/spec/{axioms,machine,judgements,'
                 'substitution}.py; rustc MIR as rendering of lib.rs. Level "other": necessary structural obligations, not a semantic proof.',
         'design_ref': 'DESIGN.md section 3, C01',
@@ -49,7 +49,7 @@ CHECKS = {
                 'constructor field or rule premise, side conditions of MP and Generalization, id/plug pairing of Instantiate) are the same '
                 'in the Serializing/Stateful/Basic interpreter chain and in the arm of execute_instructions; claims are consumed LIFO iff '
                 'published reversed; axiom schemas agree three-way; phases run in order over one interpreter. Necessary conditions only: '
-                'that a concrete module is accepted is an execution and is not decided. Also: the memoiser\'s slot budget is 256 - len(memory) with one slot per suggestion (one-byte Load operand); generator and checker compute Instantiate / resolved substitutions by the same textbook table (C11\'s Python half and C05\'s Rust half).',
+                'that a concrete module is accepted is an execution and is not decided. Also: the memoiser\'s slot budget is 256 - len(memory) with one slot per suggestion (one-byte Load operand); generator and checker compute Instantiate / resolved substitutions by the same textbook table (C11\'s Python half and C05\'s Rust half). Whenever the generator\'s freshness judgement says fresh the documented one does too, per constructor (judgement-agreement); the substitution table has ONE column for both languages (capture checks, shadowing, identity on a metavariable declared fresh): two genuine disagreements were repaired (9148c8c, 44ab5e8), the missing set-variable capture check of the generator\'s Mu arms is a known finding.',
         'note': 'Trusted: python ast, rustc MIR, spec/axioms.py. Symbols are identified with their serializer numbers (injectivity: C03).',
         'design_ref': 'DESIGN.md section 3, C02',
     },
@@ -60,7 +60,7 @@ CHECKS = {
                 'equals the effect of the opcode written for it, per phase for Publish; phase changes reset the same state on both sides; '
                 'memory grows at the same events; the Load operand is memory.index of the term handed to the tracker; -len(x) slices are '
                 'guarded. Four genuine deviations of publish_* are recorded as known findings (the pinned suite asserts them). '
-                'Equality of tracked and real state on concrete traces is not observed.',
+                'Equality of tracked and real state on concrete traces is not observed. publish_proof compares the conclusion with the HEAD of the claim list and drops exactly it (claim-queue); the generator\'s freshness judgement implies the documented one (shared with C02).',
         'note': 'Trusted: python ast, rustc MIR. Known findings in known_findings.json (publish_* leave the term on the tracked stack; claims not queued).',
         'design_ref': 'DESIGN.md section 3, C04',
     },
@@ -86,7 +86,7 @@ CHECKS = {
                 'the typing gives it: position i maps to the i-th pattern and only an argument structurally equal to MetaVar(i) is '
                 'dropped; the resolution front-end folds trivial-clause proofs in the nesting of the conjunction it advertises. '
                 'The pinned suite replays eight sample proofs; a lemma wrong off that path is invisible to it. '
-                'Eighteen methods (run-time matching, loops, prose docstrings) are declined by name in the evidence.',
+                'Eighteen methods (run-time matching, loops, prose docstrings) are declined by name in the evidence. conjunction_implies_nth is typed against its advertised contract as an inductive step driven by the count l (a last conjunct that is itself a conjunction must not be taken apart). ac_move_to_front, simplify_clause, merge_clauses and reduce_n_or_duplicates_at_front (recursion over run-time position lists) are not decided.',
         'note': 'Trusted: the docstring grammar and binding convention, the built-in primitive rules, spec/axioms.py, python ast; that the '
                 'replayed conclusion equals the static one is the ProofThunk assertion (C08).',
         'design_ref': 'DESIGN.md section 3, C10',
@@ -109,7 +109,7 @@ CHECKS = {
                 'InterpreterTransformer forwards each of the 24 interface methods (and both phase transitions) once, with the same '
                 'arguments, returning the forwarded value; the instantiation optimiser returns BasicInterpreter\'s value; ProofThunk '
                 'returns only after dynamic == static conclusion; each ProofExp primitive advertises the term BasicInterpreter computes; '
-                'sibling empty-map guards agree. Joint behaviour on concrete expressions is not observed. Interpreter.pattern interprets the operands of each constructor in the order of the stack slots the tracking interpreters check (walk-order, 8 arms); the tracking interpreters compare terms with ==, never by identity.',
+                'sibling empty-map guards agree. Joint behaviour on concrete expressions is not observed. Interpreter.pattern interprets the operands of each constructor in the order of the stack slots the tracking interpreters check (walk-order, 8 arms); the tracking interpreters compare terms with ==, never by identity. Every interpreter class that refines a call through super() calls the same method with its own arguments (64 delegations); no interpreter class keeps class-level mutable state mutated through instances.',
         'note': 'Trusted: python ast; the listed construction sites were confirmed by reading.',
         'design_ref': 'DESIGN.md section 3, C08',
     },
@@ -142,7 +142,7 @@ CHECKS = {
                 'ever tested by truthiness where its type has falsy inhabitants (empty dict, empty tuple, 0): types come from the resolved '
                 'callee\'s annotation; plus the shape of match_single (both sides destructured per constructor, bound metavariables '
                 'compared not rebound, substitution threaded, notation expanded first). Decides that the empty substitution / id 0 is '
-                'never taken for failure; soundness/completeness as equations are not evaluated. `match(equations)` hands every equation to match_single with the accumulated substitution and keeps the result; no equation is skipped and a failure fails the system.',
+                'never taken for failure; soundness/completeness as equations are not evaluated. `match(equations)` hands every equation to match_single with the accumulated substitution and keeps the result; no equation is skipped and a failure fails the system. The destructuring helpers match_single relies on (unwrap, X.deconstruct) expand every notation level; no function of pattern.py writes a module-level table (matching is a function of its arguments).',
         'note': 'Trusted: return annotations; two triaged intended emptiness tests.',
         'design_ref': 'DESIGN.md section 3, C13',
     },
@@ -166,7 +166,7 @@ CHECKS = {
                 'clause of completeness of the resolution stage: the nested saturation loop forms every pair (same growing '
                 'list in both loops, diagonal guard, resolvents rejoin the list) and no assignment in the inner loop rebinds the outer '
                 'loop element on a path that reads it again. The stage lemmas are schema-checked under C10. Equivalence of each normal '
-                'form, proof reconstruction and "declines only when contingent" are data-dependent and are NOT decided. (5) Stage contracts, as inductive steps: to_conj_form (12 returning paths), propag_neg (7) and to_cnf (6) return a form with proofs of both implications between the input and the form given that their recursive calls do (negation-flag flips followed, run-time matching transitivity decided on terms); build_proof_from_hint returns the resolvent with a proof of CONJ -> resolvent in each of the four emptiness cases given its parents do; the literal numbering of to_clauses is inverted by id_to_metavar. to_clauses is decided for left operands of 1 to 4 clauses / literals by unrolling its re-association loop in the syntax tree (bounded: longer operands run the same body more often and are not decided). These are the contracts clause (1) assumes of the stages; simplify_clause and merge_clauses stay assumptions.',
+                'form, proof reconstruction and "declines only when contingent" are data-dependent and are NOT decided. (5) Stage contracts, as inductive steps: to_conj_form (12 returning paths), propag_neg (7) and to_cnf (6) return a form with proofs of both implications between the input and the form given that their recursive calls do (negation-flag flips followed, run-time matching transitivity decided on terms); build_proof_from_hint returns the resolvent with a proof of CONJ -> resolvent in each of the four emptiness cases given its parents do; the literal numbering of to_clauses is inverted by id_to_metavar. to_clauses is decided for left operands of 1 to 4 clauses / literals by unrolling its re-association loop in the syntax tree (bounded: longer operands run the same body more often and are not decided). These are the contracts clause (1) assumes of the stages; simplify_clause and merge_clauses stay assumptions. The documented schemas of the lemmas the stages call are checked here too (C10\'s lemma typing, 82 lemmas).',
         'note': 'Trusted: python ast; the stage contracts as documented in tautology.py. Four clauses; the decision-procedure property as a whole is out of reach of static analysis.',
         'design_ref': 'DESIGN.md section 3, C09',
     },
@@ -176,7 +176,7 @@ CHECKS = {
         'text': 'Two structural clauses of the compressed-proof decoder: the letter tables are exactly A..T->1..20 and U..Y->1..5 with '
                 'weights 20*5^i; mandatory hypotheses are numbered 1,2,.. from the insertion-ordered list of floating hypotheses '
                 '(database order), never from a set (hash-seed dependent) nor merely sorted. The numeric decoding of all step numbers, '
-                'Z placement and whitespace layouts are not decided. Labels registered from `text.split(sep)` with an explicit separator must filter empty tokens (the empty list `( )` is legal); where numbers past the label list are resolved (translate.exec_proof) every Z saves and remembers the top unconditionally and number n reloads slot n - len(labels) - 1 (shared with C16).',
+                'Z placement and whitespace layouts are not decided. Labels registered from `text.split(sep)` with an explicit separator must filter empty tokens (the empty list `( )` is legal); where numbers past the label list are resolved (translate.exec_proof) every Z saves and remembers the top unconditionally and number n reloads slot n - len(labels) - 1 (shared with C16). A regular expression that cuts the proof into steps must repeat the high-digit class U-Y without bound before one A-T (read with re\'s parser); hash() / id() is never used as the identity of a term outside __hash__.',
         'note': 'Trusted: python ast; _floating_patterns is appended in database order.',
         'design_ref': 'DESIGN.md section 3, C15',
     },
